@@ -224,7 +224,7 @@ def to_record(i, plan, rec):
     for c in rec["colls"]:
         colls.append({"id": cid.setdefault(c["slot"], len(cid) + 1), "kind": c["kind"], "alone": f(c["alone"]),
                       "keys": [{"key": kid.setdefault(k, len(kid) + 1), "val": f(v)} for k, v in c["keys"]]})
-    return {"id": "p%d" % i, "colls": colls, "res": [f(r) for r in rec["res"]], "raised": bool(rec["raised"])}
+    return {"id": "p%d" % i, "kind": "tuple", "colls": colls, "res": [f(r) for r in rec["res"]], "raised": bool(rec["raised"])}
 
 
 def classify(plan, clauses, rec):
@@ -269,14 +269,134 @@ def execute(ctx, plans, count=True):
     return bad, len(records)
 
 
-def model_jobs(ctx, maxplan):
+# ---------------------------------------------------------------- sibling pairs
+def _name_of(c):
+    for attr in ("_name", "key", "name"):
+        v = getattr(c, attr, None)
+        if isinstance(v, (str, tuple)):
+            return str(v)
+    return "?%s" % type(c).__name__
+
+
+def fp_pair(p, q):
+    return (fingerprint(p), fingerprint(q))
+
+
+def run_sibling(case):
+    """Execute one sibling case; returns text fingerprints / names, or a skip."""
+    import warnings
+
+    import dask
+    from dask import delayed
+
+    from ..frames import is_shim_error
+    from ..siblings import OPS, make_base
+    op = OPS[case["op"]]
+    with warnings.catch_warnings():
+        warnings.simplefilter("ignore")
+        try:
+            L, x, E, ex = make_base(case)
+        except Exception as e:  # noqa: BLE001
+            return {"error": "sibling base %r: %s: %s" % (case, type(e).__name__, e)}
+        try:
+            ref = [op(E, ex, case["a"]), op(E, ex, case["b"])]
+        except Exception as e:  # noqa: BLE001 - the eager library rejects the argument: nothing to compare
+            return {"skip": "reference raises %s (%s)" % (type(e).__name__, case["op"])}
+        try:
+            A, B = op(L, x, case["a"]), op(L, x, case["b"])
+            alone = [dask.compute(A, scheduler="sync")[0], dask.compute(B, scheduler="sync")[0]]
+        except NotImplementedError as e:
+            return {"skip": "NotImplementedError (%s): %s" % (case["op"], str(e)[:50])}
+        except Exception as e:  # noqa: BLE001 - a single collection that fails is another property's business
+            if is_shim_error(e):
+                return {"error": "pyarrow shim: %s" % e}
+            return {"skip": "collection alone raises %s (%s)" % (type(e).__name__, case["op"])}
+        afp = [fingerprint(v) for v in alone]
+        for v, r in zip(afp, ref):
+            if r is not None and v != fingerprint(r):
+                return {"skip": "alone differs from the eager reference - not C13's (%s)" % case["op"]}
+        rec = {"names": [_name_of(A), _name_of(B)], "alone": afp, "tog": [], "togrev": [], "derived": "", "want": "", "raised": ""}
+        try:
+            rec["tog"] = [fingerprint(v) for v in dask.compute(A, B, scheduler="sync")]
+            rec["togrev"] = [fingerprint(v) for v in dask.compute(B, A, scheduler="sync")]
+        except Exception as e:  # noqa: BLE001 - an exception from dask.compute is an observation
+            rec["raised"] = "%s: %s" % (type(e).__name__, str(e)[:120])
+            return rec
+        try:
+            D = delayed(fp_pair)(A, B)                  # ONE collection that consumes both siblings
+        except Exception:  # noqa: BLE001 - cannot be wrapped: the consumer clause is not observed
+            return rec
+        try:
+            rec["derived"] = fingerprint(tuple(D.compute(scheduler="sync")))
+            rec["want"] = fingerprint(tuple(afp))
+        except Exception as e:  # noqa: BLE001
+            rec["raised"] = "consumer: %s: %s" % (type(e).__name__, str(e)[:120])
+        return rec
+
+
+def sibling_record(i, rec):
+    fp, nm = {"": 0}, {}
+    f = lambda t: fp.setdefault(t, len(fp))
+    return {"id": "s%d" % i, "kind": "sibling", "names": [nm.setdefault(n, len(nm) + 1) for n in rec["names"]],
+            "alone": [f(t) for t in rec["alone"]], "tog": [f(t) for t in rec["tog"]], "togrev": [f(t) for t in rec["togrev"]],
+            "derived": f(rec["derived"]), "want": f(rec["want"]), "raised": bool(rec["raised"])}
+
+
+def classify_sibling(case, clauses, rec):
+    if "Raised" in clauses:
+        return "Sibling:raised:%s" % case["op"]
+    return "Sibling:%s" % case["op"]
+
+
+def execute_siblings(ctx, cases, count=True):
+    results = pmap(run_sibling, cases, chunk=16)
+    records, byid, ndiffer = [], {}, 0
+    for i, (case, rec) in enumerate(zip(cases, results)):
+        if "error" in rec:
+            raise MachineryError(rec["error"])
+        if "skip" in rec:
+            ctx.skip(rec["skip"])
+            continue
+        r = sibling_record(i, rec)
+        records.append(r)
+        byid[r["id"]] = (case, rec)
+        differ = rec["alone"][0] != rec["alone"][1]
+        ndiffer += differ
+        if count:
+            ctx.count(("sibling", case), differ)
+    spec, cfg = ctx.model(ctx.spec("graph", "KeySpaceTrace.tla"), {"Impl": "positional"})
+    bad = []
+    for lo in range(0, len(records), 4000):
+        rej = ctx.tlc_validate(spec, records[lo:lo + 4000], cfg, timeout=1800)
+        for rid, texts in rej.items():
+            case, rec = byid[rid]
+            bad.append((case, [c for t in texts for c in parse_clauses(t)], rec))
+    return bad, len(records), ndiffer
+
+
+def report_siblings(ctx, bad):
+    for case, clauses, rec in bad:
+        what = ("siblings %s(%s) / (%s) on a %s base %s chunks %s: names %s, alone %s, together %s / reversed %s, consumer ok=%s%s [%s]"
+                % (case["op"], case["a"], case["b"], case["ckind"], case["shape"], case["chunks"],
+                   "EQUAL" if rec["names"][0] == rec["names"][1] else "differ", [t[:40] for t in rec["alone"]],
+                   [t[:40] for t in rec["tog"]], [t[:40] for t in rec["togrev"]], rec["derived"] == rec["want"],
+                   (" raised " + rec["raised"]) if rec["raised"] else "", ",".join(clauses)))
+        ctx.violation(classify_sibling(case, clauses, rec), what, {"sibling": case, "clauses": clauses})
+
+
+def model_jobs(ctx, maxplan, sibshapes):
     """-> callables (models written here, in the calling thread): three design checks and the plan enumeration."""
-    consts = {"NKeys": 2, "NVals": 2, "MaxTuple": 3, "MaxPlan": 2}
+    from ..core import TLA
+    consts = {"NKeys": 2, "NVals": 2, "MaxTuple": 3, "MaxPlan": 2, "SibShapes": TLA("{}")}
     mc = ctx.spec("graph", "KeySpaceMC.tla")
-    s1, c1 = ctx.model(mc, dict(consts, Impl="positional"), init="DInit", next_="DNext", invariants=["TogetherEqualsAlone", "BlameIsRight"])
+    s1, c1 = ctx.model(mc, dict(consts, Impl="positional"), init="DInit", next_="DNext",
+                       invariants=["TogetherEqualsAlone", "BlameIsRight", "SameNameIsWrong"])
     s2, c2 = ctx.model(mc, dict(consts, Impl="grouped"), init="DInit", next_="DNext", invariants=["TogetherEqualsAlone"])
     s3, c3 = ctx.model(mc, dict(consts, Impl="grouped"), init="DInit", next_="DNext", invariants=["GroupedWrongOnlyIfInterleaved", "BlameIsRight"])
-    s4, c4 = ctx.model(mc, {"Impl": "positional", "NKeys": 1, "NVals": 1, "MaxTuple": 1, "MaxPlan": maxplan}, init="PInit", next_="PNext")
+    s4, c4 = ctx.model(mc, {"Impl": "positional", "NKeys": 1, "NVals": 1, "MaxTuple": 1, "MaxPlan": maxplan, "SibShapes": TLA("{}")},
+                       init="PInit", next_="PNext")
+    s5, c5 = ctx.model(mc, {"Impl": "positional", "NKeys": 1, "NVals": 1, "MaxTuple": 1, "MaxPlan": 2, "SibShapes": TLA(sibshapes)},
+                       init="SInit", next_="SNext", invariants=["ArgsDiffer"])
 
     def must_fail():
         r = ctx.tlc(s2, c2, label="design(Impl=grouped) must fail", allow_violation=True, count=False, timeout=900)
@@ -287,8 +407,12 @@ def model_jobs(ctx, maxplan):
         out, _ = ctx.tlc_cases(s4, c4, label="plans", timeout=1800)
         out.sort(key=lambda p: json.dumps(p, sort_keys=True))
         return out
+    def siblings():
+        out, _ = ctx.tlc_cases(s5, c5, label="sibling cases", timeout=1800)
+        out.sort(key=lambda p: json.dumps(p, sort_keys=True))
+        return out
     return [lambda: ctx.tlc(s1, c1, label="design(Impl=positional)", timeout=900), must_fail,
-            lambda: ctx.tlc(s3, c3, label="design(Impl=grouped): wrong only if interleaved", timeout=900), plans]
+            lambda: ctx.tlc(s3, c3, label="design(Impl=grouped): wrong only if interleaved", timeout=900), plans, siblings]
 
 
 def report(ctx, bad):
@@ -300,7 +424,9 @@ def report(ctx, bad):
 
 
 def run(ctx):
-    plans = in_parallel(model_jobs(ctx, ctx.pick(3, 4)))[3]
+    sibshapes = ctx.pick("{<<4>>, <<2, 2>>, <<2, 3>>}", "{<<4>>, <<5>>, <<2, 2>>, <<2, 3>>, <<3, 2>>}")
+    jobs = in_parallel(model_jobs(ctx, ctx.pick(3, 4), sibshapes))
+    plans, sibs = jobs[3], jobs[4]
     total = len(plans)
     cap = ctx.pick(500, 6000)
     if len(plans) > cap:
@@ -317,15 +443,33 @@ def run(ctx):
         p["opt"] = i % 4 != 3
     bad, nrec = execute(ctx, plans)
     report(ctx, bad)
+    nsib = len(sibs)
+    scap = ctx.pick(2600, 10 ** 9)
+    if len(sibs) > scap:
+        ctx.exhaustive = False
+        by = {}
+        for c in sibs:
+            by.setdefault(c["op"], []).append(c)
+        share = max(4, scap // len(by))
+        sibs = [c for k in sorted(by) for c in ctx.rng.sample(by[k], min(share, len(by[k])))]
+    sbad, nsrec, ndiffer = execute_siblings(ctx, sibs)
+    report_siblings(ctx, sbad)
+    ctx.sample({"sibling": sibs[len(sibs) // 2]})
     for p in plans[:: max(1, len(plans) // 4)][:4]:
         ctx.sample({"plan": p})
     ctx.rule = ("a case = one plan (input family, program, tuple pattern, optimize_graph) executed as dask.compute on real "
                 "collections; non-trivial = the tuple holds at least two different collections")
-    ctx.extra.update({"plans_enumerated_by_tlc": total, "records_validated": nrec})
+    ctx.extra.update({"plans_enumerated_by_tlc": total, "records_validated": nrec, "sibling_cases_enumerated_by_tlc": nsib,
+                      "sibling_records_validated": nsrec, "sibling_pairs_with_different_results": ndiffer})
     ctx.assumptions = ["the fingerprint separates observably different results", "synchronous scheduler"]
 
 
 def replay(ctx, obj):
+    if "sibling" in obj["case"]:
+        bad, _, _ = execute_siblings(ctx, [obj["case"]["sibling"]], count=False)
+        for case, clauses, rec in bad:
+            print("sibling:", case, "\nclauses:", clauses, "\nobserved:", rec)
+        return bool(bad)
     plan = obj["case"]["plan"]
     bad, _ = execute(ctx, [plan], count=False)
     for p, clauses, rec in bad:
@@ -357,7 +501,26 @@ MUTANTS = {   # name -> (module, function, old text, new text): one dropped oper
     "delayed-name-ignores-args": ("dask.delayed", "call_function",
                                   "tokenize(func_token, *args, pure=pure, **kwargs)", "tokenize(func_token, pure=pure, **kwargs)"),
     "compute-hands-back-reversed": ("dask.base", "compute", "return repack(results)", "return repack(results[::-1])"),
+    # the sibling class: an operation's name leaves out the one argument that differs
+    "concatenate-name-ignores-axis": ("dask.array.core", "concatenate", 'name = "concatenate-" + tokenize(names, axis)',
+                                      'name = "concatenate-" + tokenize(names)'),
+    "bag-map-name-ignores-kwargs": ("dask.bag.core", "bag_map", 'tokenize(func, "map", *args, **kwargs)', 'tokenize(func, "map", *args)'),
+    "broadcast_to-name-ignores-shape": ("dask.array.core", "broadcast_to", '"broadcast_to-" + tokenize(x, shape, chunks)',
+                                        '"broadcast_to-" + tokenize(x, tuple(len(c) for c in chunks))'),
 }
+SIBLING_MUTANTS = {"elemwise-name-ignores-args", "concatenate-name-ignores-axis", "bag-map-name-ignores-kwargs", "broadcast_to-name-ignores-shape"}
+SELFTEST_SIBLINGS = [
+    {"op": "array.concatenate.axis", "ckind": "array", "shape": [2, 2], "chunks": [[1, 1], [1, 1]], "a": "0", "b": "1"},
+    {"op": "array.concatenate.axis", "ckind": "array", "shape": [2, 2], "chunks": [[2], [1, 1]], "a": "0", "b": "1"},
+    {"op": "array.elemwise.add", "ckind": "array", "shape": [4], "chunks": [[2, 2]], "a": "1", "b": "2"},
+    {"op": "array.broadcast_to.shape", "ckind": "array", "shape": [4], "chunks": [[1, 1, 1, 1]], "a": "2", "b": "3"},
+    {"op": "array.stack.axis", "ckind": "array", "shape": [2, 2], "chunks": [[1, 1], [1, 1]], "a": "0", "b": "2"},
+    {"op": "array.setitem.value", "ckind": "array", "shape": [2, 3], "chunks": [[1, 1], [3]], "a": "-1", "b": "-2"},
+    {"op": "bag.map.kwargs", "ckind": "bag", "shape": [6], "chunks": [[3, 3]], "a": "1", "b": "2"},
+    {"op": "bag.map.args", "ckind": "bag", "shape": [6], "chunks": [[1, 1, 1, 1, 1, 1]], "a": "1", "b": "2"},
+    {"op": "delayed.call.kwargs", "ckind": "delayed", "shape": [1], "chunks": [[1]], "a": "1", "b": "2"},
+    {"op": "frame.add.const", "ckind": "frame", "shape": [4], "chunks": [[2, 2]], "a": "1", "b": "2"},
+]
 
 
 def _with_mutant(args):
@@ -380,7 +543,11 @@ def _with_mutant(args):
             dask.compute = mutated
         if name == "from_array-name-ignores-data":
             dask.array.from_array = mutated
-        return [run_plan(p) for p in plans]
+        if name == "concatenate-name-ignores-axis":
+            dask.array.concatenate = mutated
+        if name == "broadcast_to-name-ignores-shape":
+            dask.array.broadcast_to = mutated
+        return [run_plan(p) for p in plans], [run_sibling(c) for c in SELFTEST_SIBLINGS]
 
 
 def selftest(ctx):
@@ -391,26 +558,34 @@ def selftest(ctx):
     outs = pmap(_with_mutant, [(n, SELFTEST_PLANS) for n in names], procs=len(names), chunk=1, always=True)
     spec, cfg = ctx.model(ctx.spec("graph", "KeySpaceTrace.tla"), {"Impl": "positional"})
     records, owner = [], {}
-    for j, (nm, res) in enumerate(zip(names, outs)):
+    for j, (nm, (res, sres)) in enumerate(zip(names, outs)):
         for i, (plan, rec) in enumerate(zip(SELFTEST_PLANS, res)):
             if "error" in rec or "skip" in rec:
                 raise MachineryError("selftest plan not executable: %r" % rec)
             r = to_record(j * 1000 + i, plan, rec)
             records.append(r)
             owner[r["id"]] = (nm, plan, rec)
+        for i, (case, rec) in enumerate(zip(SELFTEST_SIBLINGS, sres)):
+            if "error" in rec or "skip" in rec:
+                raise MachineryError("selftest sibling case not executable: %r %r" % (case, rec))
+            r = sibling_record(j * 1000 + i, rec)
+            records.append(r)
+            owner[r["id"]] = (nm, case, rec)
     rej = ctx.tlc_validate(spec, records, cfg, timeout=600)
     sigs = {}
     for rid, texts in rej.items():
         nm, plan, rec = owner[rid]
-        sigs.setdefault(nm, set()).add(classify(plan, [c for t in texts for c in parse_clauses(t)], rec))
+        cl = [c for t in texts for c in parse_clauses(t)]
+        sigs.setdefault(nm, set()).add(classify_sibling(plan, cl, rec) if rid.startswith("s") else classify(plan, cl, rec))
     base = sigs.get(None, set())
     print("unmutated tree on the self-test plans: rejected signatures %s" % sorted(base))
     for nm in names[1:]:
         new = sorted(sigs.get(nm, set()) - base)
-        print("mutant %s: %s (new signatures: %s)" % (nm, "DETECTED" if new else "MISSED", new[:4]))
-        ok &= bool(new)
+        hit = bool(new) and (nm not in SIBLING_MUTANTS or any(x.startswith("Sibling:") for x in new))
+        print("mutant %s: %s (new signatures: %s)" % (nm, "DETECTED" if hit else "MISSED", new[:4]))
+        ok &= hit
     # (ii) a corrupted recorded field is rejected, the untouched record accepted
-    clean = [dict(r) for r in records if owner[r["id"]][0] is None and r["id"] not in rej][:3]
+    clean = [dict(r) for r in records if owner[r["id"]][0] is None and r["id"] not in rej and r["kind"] == "tuple"][:3]
     good = ctx.tlc_validate(spec, clean, cfg)
     clean[0] = dict(clean[0], res=list(clean[0]["res"][:-1]) + [clean[0]["res"][-1] + 50])
     bad = ctx.tlc_validate(spec, clean, cfg)
